@@ -808,6 +808,12 @@ class Exec(object):
             var = v.variant
             return Int(z3.BitVecVal(var, 64), True) if isinstance(var, int) else Int(var, True)
         if k in ('adt_tuple', 'adt_unit', 'adt_struct'):
+            ml = re.search(r'for (?:\w+::)*(\w+)<.*>>::\w+::(__\w+)::(\w+)$', a[0]) if '::__' in a[0] else None
+            if ml and (ml.group(1), ml.group(2)) in getattr(self.p, 'local_enums', {}):
+                names = self.p.local_enums[(ml.group(1), ml.group(2))]
+                if ml.group(3) not in names:
+                    raise Unsupported('variant %s of local enum %s' % (ml.group(3), ml.group(2)))
+                return Adt('%s@%s' % (ml.group(2), ml.group(1)), names.index(ml.group(3)), [self.operand(st, fr, o) for o in (a[1] if k == 'adt_tuple' else [])])
             segs = self.adt_path(a[0])
             if k == 'adt_struct':
                 ty = segs[-1]
